@@ -5,7 +5,7 @@ import json
 import os
 import random
 
-from vlib import core, fogen, semrun
+from vlib import slicecheck, core, fogen, semrun
 from vlib.core import Infra
 
 LEVEL = "model_checking"
@@ -84,6 +84,28 @@ def run_programs(ctx, progs):
     return texts, obs_t, obs_f, bad
 
 
+def prec_part(ctx):
+    """operator grouping in tinyfo: every chain of 1-3 operators of the subset (+ - < > <= >= = <> && ||) between names, written WITHOUT
+    parentheses (the program generator parenthesises every operand), transpiled by tinyfo; the emitted Go expression must have the
+    grouping of the published table (spec/FoPrec.tla, the same oracle as C08)"""
+    from checks import c08
+    sd = ctx.spec_dir()
+    slicecheck.write_cfg(ctx, "FoPrecCases_tiny.cfg", "CONSTANTS\n  N = 3\n  OutFile = \"prec_cases_tiny.ndjson\"\nINIT Init\nNEXT Next\n")
+    ctx.tlc("FoPrecCases", "FoPrecCases_tiny.cfg", workers=1, timeout=3000, heap_gb=8)
+    cases = core.read_ndjson(os.path.join(sd, "prec_cases_tiny.ndjson"))
+    allowed = {"+", "-", "<", ">", "<=", ">=", "=", "<>", "&&", "||"}
+    rows = [{"toks": c["toks"], "brk": None, "kind": "plain"} for c in cases
+            if c["kind"] == "plain" and all(t in allowed for t in c["toks"][1::2])]
+    lines, bad = c08.run_rows(ctx, rows, tool="tinyfo", params="(a:int) (b:int) (c:int) (d:int) (e:int)")
+    ctx.extra["tinyfo_operator_chains"] = len(lines)
+    for i, l in enumerate(lines):
+        ctx.case(["prec", l["toks"]], nontrivial=len(l["toks"]) >= 5)
+    for b in bad[:20]:
+        l = lines[b - 1]
+        ctx.violation("tinyfo groups an operator chain differently from the table (or rejects it): %s  status=%s  emitted tree=%s" % (
+            l["src"].split("=\n", 1)[1].strip(), l["status"], json.dumps(l["got"])), {"row": {"toks": l["toks"]}, "recorded": l, "kind": "prec"})
+
+
 def run(ctx):
     ctx.rule = ("well-typed programs of the tinyfo subset from the seeded generator restricted to that profile (annotated functions, "
                 "+ - comparisons && || not, if / elif / else, if without else, non-generic records and unions with match (bind / ignore / "
@@ -91,7 +113,8 @@ def run(ctx):
                 "monomorphic probes) plus the C01 kernels inside the subset; quick 300, thorough 15000 random programs; each transpiled by "
                 "tinyfo AND by fc. distinct = distinct programs; non-trivial = the specified trace has >= 2 events. Outside the profile "
                 "(calibrated on the pinned tree): lambdas, * /, interpolation, string match, inner functions, generic probes, slice "
-                "literals as arguments, a let whose right-hand side starts on the next line")
+                "literals as arguments, a let whose right-hand side starts on the next line.  Plus every chain of 1-3 operators of the subset "
+                "between names, written without parentheses, through tinyfo: grouping as in spec/FoPrec.tla (1,110 chains)")
     n = 15000 if ctx.tier == "thorough" else 300
     rng = random.Random(ctx.seed * 104729 + 17)
     progs = [fogen.generate(rng, i + 1, profile="tinyfo", size=rng.randint(1, 4)) for i in range(n)]
@@ -101,6 +124,7 @@ def run(ctx):
         o = obs_t[p["id"]]
         ctx.case(fogen.to_spec(p), nontrivial=len(o["events"]) >= 2,
                  sample={"program": texts[i][texts[i].find("let p%dmain" % p["id"]):][:300], "events": o["events"][:5], "status": o["status"]} if i % 97 == 5 else None)
+    prec_part(ctx)
     ctx.traces = len(progs)
     ctx.extra["events_validated"] = sum(len(o["events"]) for o in obs_t.values())
     ctx.exhaustive = False
@@ -124,6 +148,9 @@ def run(ctx):
 
 
 def replay(ctx, rep):
+    if rep.get("kind") == "prec":
+        prec_part(ctx)
+        return
     texts, obs_t, obs_f, bad = run_programs(ctx, [rep["program"]])
     pid = rep["program"]["id"]
     if bad or obs_t[pid]["events"] != obs_f[pid]["events"] or obs_t[pid]["result"] != obs_f[pid]["result"]:
